@@ -10,7 +10,7 @@ import numpy as np
 from lib import Prop, coq_eval
 import wmodel
 from wmodel import Driver, IdMap, snapshot
-from props.c02 import gen_build, well_formed, dense_by_tokens, gen_edit, C02
+from props.c02 import gen_build, gen_build_on, well_formed, dense_by_tokens, gen_edit, C02
 from util import TTNS
 
 
@@ -66,7 +66,11 @@ class C03(Prop):
     id = "C03"
     rule = ("random trees (1-7 nodes; FULL mode limited to <=4 nodes with dims<=2 to bound growth) built with shuffled legs, bond/physical "
             "dimensions in {1,2,3} (bonds larger than the space they connect and rank-deficient tensors included), then 1-5 operations: canonical "
-            "form at a random node / centre moves, random split mode; non-trivial = at least 2 nodes; distinct by seed content")
+            "form at a random node / centre moves, random split mode; plus 25% additional cases (2-7 nodes) with SHARED ARRAYS: all nodes whose tensors "
+            "have equal shapes are handed the very same ndarray object (`[leaf] * n`, translation-invariant states), half of them on the random "
+            "dimensions above, half with one bond and one physical dimension for the whole tree (all leaves one object), same operations and the "
+            "same dense before/after oracle (reference contracted from a deep copy before the first operation); non-trivial = at least 2 nodes; "
+            "distinct by seed content")
     clauses = [
         ("F", "the QR leg specifications built for a node and any neighbour partition the node's legs; REDUCED bond <= both sides; KEEP bond = the old bond dimension (Props C03_*)"),
         ("F", "canonical_form records the requested centre; iso_check soundness: a store that passes it has, at every non-centre node, exactly one QR-Q atom whose new bond is the leg toward the centre"),
@@ -84,7 +88,10 @@ class C03(Prop):
         ("I", "per explored instance: the hypotheses of the state theorems (wfsb of the store the first canonical-form operation starts from, "
               "temporary identifier fresh) by vm_compute"),
         ("V", "state unchanged (dense einsum of the real network before/after every operation), centre-norm = full norm: dense oracle; tensor "
-              "replacements (scramble) and structural edits between the operations are outside the C03 state theorems (edits: C02_run_net_value)"),
+              "replacements (scramble) and structural edits between the operations are outside the C03 state theorems (edits: C02_run_net_value). "
+              "The model treats the tensor of every node as a separate value; that nodes which were handed one and the same ndarray object do not "
+              "influence each other (no write into a buffer the caller or another node still references) is covered by the shared-array cases of "
+              "the dense oracle only"),
     ]
     trusted_base = ["LAPACK QR: Q^H Q = 1 (validated numerically at every node)",
                     "LAPACK QR kernel contract Q R = A over the new bond, incl. zero-padded KEEP factors (premise def_holds of the C03_*_state_unchanged "
@@ -96,8 +103,16 @@ class C03(Prop):
     def generate(self, ctx, stream, budget_scale=1):
         rng = ctx.rng(stream)
         n = ctx.scale(120, 1200) * budget_scale
-        return [{"seed": rng.randrange(10 ** 9), "nnodes": rng.choice([1, 2, 2, 3, 3, 4, 4, 5, 6, 7]), "nops": rng.randrange(1, 6),
-                 "lowrank": j % 4 == 0} for j in range(n)]
+        cases = [{"seed": rng.randrange(10 ** 9), "nnodes": rng.choice([1, 2, 2, 3, 3, 4, 4, 5, 6, 7]), "nops": rng.randrange(1, 6),
+                  "lowrank": j % 4 == 0} for j in range(n)]
+        # [shared arrays] ADDITIONAL cases (the ones above are unchanged): nodes whose tensors have equal shapes are handed the very SAME
+        # ndarray object (a caller writing `[leaf] * n`, a translation-invariant product/initial state). "random": the random trees and
+        # dimensions of the main family; "uniform": one bond dimension and one physical dimension for the whole tree, so that all leaves
+        # (and all inner nodes of equal degree) hold one object
+        ns = ctx.scale(30, 300) * budget_scale
+        cases += [{"seed": rng.randrange(10 ** 9), "nnodes": rng.choice([2, 3, 3, 4, 4, 5, 6, 7]), "nops": rng.randrange(1, 6),
+                   "lowrank": j % 4 == 0, "share": "uniform" if j % 2 else "random"} for j in range(ns)]
+        return cases
 
     def nontrivial(self, case):
         return case["nnodes"] >= 2
@@ -117,9 +132,17 @@ class C03(Prop):
         # every fifth case: a hand-written INTEGER state (tensors of dtype int64); the factorisations have to promote it
         intstate = case.get("intstate", case["seed"] % 5 == 0)
         drv = Driver(ttn_cls=TTNS, nprs=np.random.RandomState(case["seed"] % (2 ** 31)), lowrank=0.5 if case.get("lowrank") else 0.0,
-                     ints=3 if intstate else None, complex_=not intstate, intdtype=intstate)
+                     ints=3 if intstate else None, complex_=not intstate, intdtype=intstate, share=bool(case.get("share")))
         small = case["nnodes"] <= 4
-        ops = gen_build(rng, case["nnodes"], nopen_choices=(1,), dim_choices=(1, 2, 2) if small else (1, 2, 2, 3))
+        dim_choices = (1, 2, 2) if small else (1, 2, 2, 3)
+        if case.get("share") == "uniform":
+            # one bond dimension and one physical dimension everywhere (legs still handed over in a random order)
+            nn = case["nnodes"]
+            parents = [None] + [rng.randrange(0, i) for i in range(1, nn)]
+            bdim, pdim = rng.choice(dim_choices), rng.choice(dim_choices)
+            ops = gen_build_on(rng, parents, [[pdim] for _ in range(nn)], {i: bdim for i in range(1, nn)})
+        else:
+            ops = gen_build(rng, case["nnodes"], nopen_choices=(1,), dim_choices=dim_choices)
         if case.get("ops"):
             ops = case["ops"]
         steps = []
@@ -134,6 +157,17 @@ class C03(Prop):
                           "centre": drv.ttn.orthogonality_center_id})
         tokens = {nid: [(nid, j) for j in range(nd.nopen_legs())] for nid, nd in drv.ttn.nodes.items()}
         dense0 = dense_by_tokens(drv.ttn, tokens)
+        if case.get("share"):
+            # how much sharing this case really has: nodes / leaves (one neighbour) that were given one ndarray object
+            byobj = {}
+            for o_, a_ in zip(applied, drv.atoms):
+                byobj.setdefault(id(a_), []).append(o_[1])
+            groups = [g for g in byobj.values() if len(g) > 1]
+            self._stats[f"shared arrays ({case['share']} dims): cases"] += 1
+            if groups:
+                self._stats["shared arrays: cases where >= 2 nodes hold one ndarray object"] += 1
+            if any(sum(1 for x in g if drv.ttn.nodes[x].nneighbours() == 1) > 1 for g in groups):
+                self._stats["shared arrays: cases where >= 2 leaves hold one ndarray object"] += 1
         ids = list(drv.ttn.nodes)
         have_centre = False
         if not case.get("ops"):
